@@ -124,3 +124,62 @@ Example C01_example :
                      Row 3 0 (TrEv 5) (TgState 1) false ActNone None] [] HNone in
   map r_id (table_rows (Cfg Back false 0 false) [] mc 0 4) = [9; 2; 1].
 Proof. vm_compute. reflexivity. Qed.
+
+(* ---- whole machines, whole histories ---- *)
+From Msm Require Import Spec Lemmas_Sim Lemmas_Core Lemmas_SpecRun Lemmas_SpecProps.
+
+(* Spec.v states the run-to-completion step of a hierarchical machine as a pure function on configurations: per region
+   the active state's candidates (its own internal table, then the table rows leaving it, last declared first), an
+   active submachine first, the machine's own internal table last.  For every core definition (any nesting depth, any
+   number of regions, any history policy below the outermost machine, guards, internal rows at every level), every
+   history of start / process_event / stop and every guard valuation the engine's run is this function: same behaviour
+   invocations, order and arguments, same active ids at every level after every operation, handled / rejected outcome as
+   specified. *)
+Theorem C01_back_run_is_the_specified_selection : forall cf md l,
+  c_be cf = Back -> c_fct cf = false -> flat_events md -> core (md_root md) -> depth (md_root md) + 2 <= default_fuel ->
+  back_start_queues = true -> Forall plain_op l ->
+  Forall2 step_ok (spec_run false (c_pol cf) md l) (run cf md l).
+Proof. exact back_run_is_spec. Qed.
+Print Assumptions C01_back_run_is_the_specified_selection.
+
+Theorem C01_mp11_run_is_the_specified_selection : forall cf md l,
+  c_be cf = Mp11 -> flat_events md -> core (md_root md) -> m_hist (md_root md) = HNone ->
+  depth (md_root md) + 2 <= default_fuel -> mp11_entry_throw_resets = true -> bracketed false l ->
+  Forall2 step_ok (spec_run true (c_pol cf) md l) (run cf md l).
+Proof. exact mp11_run_is_spec. Qed.
+Print Assumptions C01_mp11_run_is_the_specified_selection.
+
+(* what that function says about one cell: guards of the candidates before the first one that holds are evaluated once
+   each, in priority order; that first one is taken; nothing behind it is looked at *)
+Theorem C01_spec_first_candidate_whose_guard_holds : forall pol mc r ev val pre x post c,
+  Forall (says_no val) pre -> says_yes val x ->
+  sp_rows pol mc r ev val (pre ++ x :: post) c =
+    let '(i, c') := sp_take pol mc r x ev c in
+    Out true (match pre with [] => false | _ => true end)
+        (i ++ (if r_guard x then [Cb (KGuard true) [] (r_id x) ev false (c_act c)] else []) ++ rev (map (guard_no ev c) pre)) c'.
+Proof. exact sp_rows_first_yes. Qed.
+Print Assumptions C01_spec_first_candidate_whose_guard_holds.
+
+Theorem C01_spec_all_guards_reject : forall pol mc r ev val l c,
+  Forall (says_no val) l ->
+  sp_rows pol mc r ev val l c = Out false (match l with [] => false | _ => true end) (rev (map (guard_no ev c) l)) c.
+Proof. exact sp_rows_all_no. Qed.
+Print Assumptions C01_spec_all_guards_reject.
+
+Theorem C01_spec_cases_exhaustive : forall val l,
+  Forall (says_no val) l \/ exists pre x post, l = pre ++ x :: post /\ Forall (says_no val) pre /\ says_yes val x.
+Proof. exact sp_rows_cases. Qed.
+Print Assumptions C01_spec_cases_exhaustive.
+
+(* the hypotheses are met by a nested definition with two regions and history and a history with a restart *)
+Example C01_spec_example :
+  core (md_root ex_core_md) /\ bracketed false ex_core_ops /\ Forall plain_op ex_core_ops /\ flat_events ex_core_md /\
+  m_hist (md_root ex_core_md) = HNone /\ depth (md_root ex_core_md) + 2 <= default_fuel /\
+  length (run (Cfg Back false 0 false) ex_core_md ex_core_ops) = 11.
+Proof.
+  split; [exact ex_core_ok|].
+  split; [cbn; repeat split; discriminate|].
+  split; [repeat constructor; cbn; discriminate|].
+  split; [intros [|e]; reflexivity|].
+  split; [reflexivity|]. split; [vm_compute; repeat constructor | vm_compute; reflexivity].
+Qed.
